@@ -378,6 +378,28 @@ def h_size(wp, n, args, obj):
     raise Unsupported('size() of an unmodelled object')
 
 
+def h_rvec_reduce(kind):
+    """weights.sum() / min() / max() of the caller's weight vector: a real constant with the facts a finite sum / extremum
+    of NON-NEGATIVE reals has at the ghost positions the spec tracks (assumed contract of the Eigen reduction; the weights
+    are non-negative by the library's own assert(weights.min() >= 0)): sum >= 0 and sum >= each tracked weight; min <= each
+    tracked weight and min >= 0; max >= each tracked weight"""
+    def h(wp, n, args, obj):
+        o = look(obj)
+        v = wp.ev(o) if o.get('kind') == 'DeclRefExpr' else None
+        if v is None or v.s != 'Rvec' or v.t != wp.weights:
+            raise Unsupported(f'{kind}() of an unmodelled object')
+        r = wp.fresh('Real', f'weights_{kind}', 'double')
+        ghosts = [g for g in ('gw',) if any(d.startswith(f'(declare-const {g} ') for d in wp.decls)]
+        size = wp.rvecs[v.t][0]
+        facts = ['(>= %s 0.0)' % r.t]
+        for g in ghosts:
+            op = '<=' if kind == 'min' else '>='
+            facts.append(f'(=> {inr(g, 0, size)} (and (>= (wval {g}) 0.0) ({op} {r.t} (wval {g}))))')
+        wp.assume(AND(*facts))
+        return r
+    return h
+
+
 def h_vector(wp, n, args, obj):
     """tensor_t::vector(): Eigen::Map over the whole storage"""
     return wp.view(obj)
@@ -677,6 +699,9 @@ CALLS = [(r'^operator=\|Eigen::', h_assign), (r'^transform\|', h_transform), (r'
          (r'^operator\(\)\|.*\|std::(uniform_int|discrete)_distribution<long>', h_draw),
          (r'^operator\(\)\|.*\|nano::tensor_t<nano::tensor_carray_storage_t, long, 1>', h_at)]
 MEMBERS = [(r'^value\|nano::parameter_t', h_param_value), (r'^size\|', h_size),
+           (r'^sum\|nano::tensor_t<nano::tensor_carray_storage_t, double, 1>', h_rvec_reduce('sum')),
+           (r'^min\|nano::tensor_t<nano::tensor_carray_storage_t, double, 1>', h_rvec_reduce('min')),
+           (r'^max\|nano::tensor_t<nano::tensor_carray_storage_t, double, 1>', h_rvec_reduce('max')),
            (r'^vector\|nano::tensor_t<nano::tensor_vector_storage_t, long, 1>', h_vector),
            (r'^segment\|.*Eigen::DenseBase<Eigen::Map<Eigen::Matrix<long, -1, 1', h_segment),
            (r'^slice\|nano::tensor_t<nano::tensor_vector_storage_t, long, 1>', h_slice),
